@@ -19,32 +19,30 @@ theorem loggingStep_eqv (mk : KVs → KVs → TPath → Out KVs) (p : TPath) (hm
     {e e' o o' : Val} (he : Eqv e e') (ho : Eqv o o') (we : WF e) (we' : WF e') (wo : WF o) (wo' : WF o') :
     OutEqv Eqv (loggingStep mk e o p) (loggingStep mk e' o' p) := by
   cases he with
+  | null => simpa [loggingStep, OutEqv] using ho
   | map a1 a2 =>
     cases ho with
+    | null => simpa [loggingStep, OutEqv] using Eqv.map a1 a2
     | map b1 b2 =>
       have hc : MEqv _ _ := ⟨a1, a2⟩
       have hoth : MEqv _ _ := ⟨b1, b2⟩
       simp only [loggingStep]
-      rw [ifaceEq_eqv (getD_eqv hoth "driver") (getD_eqv hc "driver"), isNone_eqv hoth "driver", isNone_eqv hc "driver"]
+      rw [sameScalar_eqv (getD_eqv hoth "driver") (getD_eqv hc "driver"), isNone_eqv hoth "driver", isNone_eqv hc "driver"]
       split
-      · trivial
-      · split
-        · exact okMap_eqv (hmk _ _ _ _ hc hoth (WF.map_iff.mp we) (WF.map_iff.mp we') (WF.map_iff.mp wo) (WF.map_iff.mp wo'))
-        · exact Eqv.map b1 b2
-    | null => simp [loggingStep, OutEqv]
+      · exact okMap_eqv (hmk _ _ _ _ hc hoth (WF.map_iff.mp we) (WF.map_iff.mp we') (WF.map_iff.mp wo) (WF.map_iff.mp wo'))
+      · exact Eqv.map b1 b2
     | bool b => simp [loggingStep, OutEqv]
     | int i => simp [loggingStep, OutEqv]
     | float s => simp [loggingStep, OutEqv]
     | str s => simp [loggingStep, OutEqv]
     | seqNil => simp [loggingStep, OutEqv]
     | seqCons _ _ => simp [loggingStep, OutEqv]
-  | null => simp [loggingStep, OutEqv]
-  | bool b => simp [loggingStep, OutEqv]
-  | int i => simp [loggingStep, OutEqv]
-  | float s => simp [loggingStep, OutEqv]
-  | str s => simp [loggingStep, OutEqv]
-  | seqNil => simp [loggingStep, OutEqv]
-  | seqCons _ _ => simp [loggingStep, OutEqv]
+  | bool b => cases ho <;> simp [loggingStep, OutEqv] <;> exact Eqv.bool b
+  | int i => cases ho <;> simp [loggingStep, OutEqv] <;> exact Eqv.int i
+  | float s => cases ho <;> simp [loggingStep, OutEqv] <;> exact Eqv.float s
+  | str s => cases ho <;> simp [loggingStep, OutEqv] <;> exact Eqv.str s
+  | seqNil => cases ho <;> simp [loggingStep, OutEqv] <;> exact Eqv.seqNil
+  | seqCons h1 h2 => cases ho <;> simp [loggingStep, OutEqv] <;> exact Eqv.seqCons h1 h2
 
 theorem defaultStep_eqv (mk : KVs → KVs → TPath → Out KVs) (p : TPath) (hmk : MkCongr mk p)
     {e e' o o' : Val} (he : Eqv e e') (ho : Eqv o o') (we : WF e) (we' : WF e') (wo : WF o) (wo' : WF o') :
@@ -114,26 +112,19 @@ theorem specialStep_eqv (mk : KVs → KVs → TPath → Out KVs) (p : TPath) (hm
     | seqNil => simpa [specialStep, OutEqv] using Eqv.seqNil
     | seqCons h1 h2 => simpa [specialStep, OutEqv] using Eqv.seqCons h1 h2
   | extraHosts =>
-    simp only [specialStep]
+    simp only [specialStep, OutEqv]
     have h1 := seqOf_eqv he we we'
     have h2 := seqOf_eqv ho wo wo'
-    have h3 := keepNew_eqv h1 h2
-    cases hk : keepNew (seqOf e) (seqOf o) <;> cases hk' : keepNew (seqOf e') (seqOf o') <;>
-      simp only [hk, hk', OptSeqEqv, OutEqv] at h3 ⊢
-    · exact Eqv.seq_append h1 h3
+    exact Eqv.seq_append h1 (keepNew_eqv h1 h2)
   | dependsOn =>
     simp only [specialStep]
-    refine OutEqv.bind (intoMap_eqv _ wf_dependsOnDefault he we we') (fun r r' hrr => ?_)
-    refine OutEqv.bind (intoMap_eqv _ wf_dependsOnDefault ho wo wo') (fun l l' hll => ?_)
-    exact mergeOptMapsWith_eqv mk p hmk hrr hll
+    exact convMerge_eqv mk p hmk _ (fun v v' h w w' => intoMap_eqv _ wf_dependsOnDefault h w w') he ho we we' wo wo'
   | networks =>
     simp only [specialStep]
-    refine OutEqv.bind (intoMap_eqv _ .null he we we') (fun r r' hrr => ?_)
-    refine OutEqv.bind (intoMap_eqv _ .null ho wo wo') (fun l l' hll => ?_)
-    exact mergeOptMapsWith_eqv mk p hmk hrr hll
+    exact convMerge_eqv mk p hmk _ (fun v v' h w w' => intoMap_eqv _ .null h w w') he ho we we' wo wo'
   | build =>
     simp only [specialStep]
-    exact mergeOptMapsWith_eqv mk p hmk (toBuild_eqv he we we') (toBuild_eqv ho wo wo')
+    exact convMerge_eqv mk p hmk _ (fun v v' h w w' => toBuild_eqv h w w') he ho we we' wo wo'
   | logging => exact loggingStep_eqv mk p hmk he ho we we' wo wo'
   | unknown => simp [specialStep, OutEqv]
 
